@@ -94,6 +94,16 @@ fn termops(d: &mut Drv) {
             d.call("ctor_v", || k("long", &long), || o($V::from_iter(long.iter().cloned().filter(|_| true))));
             d.call("ctor_v", || k("short", short), || { let mut it = short.iter().cloned(); o($V::from_iter(std::iter::from_fn(move || it.next()))) });
             d.call("ctor_v", || k("exact", &a), || o(va.into_iter().collect::<$V<Tm>>()));
+            // a multi-step use: vectors collected one after the other from the SAME iterator (by_ref) must take exactly n
+            // items each, in order; what is left afterwards is reported as the third component
+            let stream: Vec<Tm> = a.iter().cloned().chain(b.iter().cloned()).chain(c.iter().cloned().take(1)).collect();
+            d.call("ctor_chunks", || json!({"ty": $name, "n": $n, "input": tms(&stream)}), || {
+                let mut it = stream.iter().cloned();
+                let v1: $V<Tm> = it.by_ref().collect();
+                let v2 = $V::from_iter(&mut it);
+                let rest: Vec<Tm> = it.collect();
+                json!([o(v1), o(v2), tms(&rest)])
+            });
         }};
     }
     for_all_vecs!(one);
